@@ -6,6 +6,7 @@ import (
 	"math"
 	"math/rand"
 	"sort"
+	"strings"
 
 	"verif/harness/model"
 )
@@ -26,6 +27,19 @@ var WeirdKeys = []string{"", "a.b", "#0", "\"k\"", "ž ", "k\\", "\x00\x7f", "
 
 // PlainKeys are free of '.' and '#' and non-empty (tree-form domain, C10/C11).
 var PlainKeys = []string{"a", "b", "c", "key", "ž", "k k", "0", "-1", "x\"y", "😀"}
+
+// LongGroups: see mode "long".
+var LongGroups = func() [][]string {
+	base := strings.Repeat("p", 70)
+	return [][]string{
+		{base + "a", base + "A", base + "b", base, base + base + base + base + "z"},
+		{"Key", "key", "KEY", " key", "key "},
+		{"straße", "STRASSE", "strasse"},
+		{"\u00e9", "e\u0301", "E\u0301"},
+		{"1", "01", "0x1", "1e0"},
+		{"true", "null", "nil", "True"},
+	}
+}()
 
 func (t *Table) finish() *Table {
 	t.revStr = map[string]int{}
@@ -69,6 +83,21 @@ func New(mode string, seed int64, nstr int) *Table {
 	case "bytes":
 		// strings that are not valid UTF-8 (containers must hold and hand back any Go string unchanged)
 		t.Strs = []string{"k\xfe", "k\xff", "\xc3(", "a\x80b", "\xed\xa0\x80", "plain"}
+		sort.Strings(t.Strs[:nstr])
+	case "long":
+		// look-alikes: long common prefixes (differences in the last byte only, one string a prefix of the others), case pairs,
+		// canonically equivalent Unicode spellings, strings that read like other kinds; all non-empty and free of '.' and '#'
+		// whole groups of look-alikes come first, so that the few strings in use are look-alikes of each other
+		groups := append([][]string(nil), LongGroups...)
+		rng.Shuffle(len(groups), func(i, j int) { groups[i], groups[j] = groups[j], groups[i] })
+		for _, g := range groups {
+			g = append([]string(nil), g...)
+			rng.Shuffle(len(g), func(i, j int) { g[i], g[j] = g[j], g[i] })
+			t.Strs = append(t.Strs, g...)
+		}
+		if nstr > len(t.Strs) {
+			nstr = len(t.Strs)
+		}
 		sort.Strings(t.Strs[:nstr])
 	case "dots":
 		// keys that look like tree-form paths of each other: ".a" must not be read as the path to "a"
